@@ -115,6 +115,11 @@ CHECKS["C02"] = ("model_checking",
     "Six base PDUs (two A-ASSOCIATE-RQ, P-DATA with a C-ECHO-RQ, A-RELEASE-RQ, A-ABORT, A-ASSOCIATE-RJ): truncation and extension at every offset, substitution with 0x00/0xFF and bit flip at every offset, PDU length and every top-level item length off by one / zero / huge, unknown PDU types, and the conformant variants (reserved bytes 0xFF/0x01, protocol versions 3/0xFFFF/0x8001): about 3200 inputs (1440 in quick).",
     "Trusted: loopback delivery; inputs reach Sta2 or Sta6 only; races between the received bytes and the association layer's own requests are the C05 known findings and are listed for C02 by the same event/state.", "§6 C02", "pdu")
 
+CHECKS["C30"] = ("model_checking",
+    "TLA+ StorePath spec (UID values as token sequences, POSIX resolution, Inside predicate); TLC enumerates the values; each is handled by the real qrscp and storescp handle_store in a scratch tree with canaries (S2C); every created/modified path is resolved and judged by the Trace_StorePath spec (C2S)",
+    "All token sequences up to length 3 (4 thorough) over digits, '.', '..', '/', letters, backslash, optionally with an absolute prefix, as SOP Instance UID of a C-STORE handled by both applications; filesystem snapshot before/after; only files inside the storage directory or the database file may change.",
+    "Trusted: handlers called directly with an event built from the encoded/decoded dataset; POSIX only.", "§6 C30", "storepath")
+
 NOT_YET = {}
 
 
